@@ -206,9 +206,12 @@ def truncate(S, options):
     if np.any(S < -1.0e-10):
         warnings.warn('negative Schmidt values!', stacklevel=2)
 
-    # use 1.e-100 as replacement for <=0 values for a well-defined logarithm.
-    logS = np.log(np.choose(S <= 0.0, [S, 1.0e-100 * np.ones(len(S))]))
-    piv = np.argsort(logS)  # sort *ascending*.
+    # use the smallest positive float as replacement for <=0 values for a well-defined logarithm
+    # (a larger replacement like 1.e-100 would rank zeros above smaller positive values).
+    tiny = np.nextafter(0.0, 1.0)
+    logS = np.log(np.choose(S <= 0.0, [S, tiny * np.ones(len(S))]))
+    # sort *ascending* by the values themselves: the logarithm is only weakly monotonic.
+    piv = np.argsort(np.choose(S <= 0.0, [S, np.zeros(len(S))]))
     logS = logS[piv]
     # goal: find an index 'cut' such that we keep piv[cut:], i.e. cut between `cut-1` and `cut`.
     good = np.ones(len(piv), dtype=np.bool_)  # good[cut] = (is `cut` a good choice?)
